@@ -20,6 +20,9 @@ def analyse(prop: str, tier: str, repo: str):
     F = facts_mod.load(tier)
     F["setup"] = facts_mod.setup_facts(repo)
     R = Recorder(prop)
+    for m in P.mods.values():
+        for line in getattr(m, "norm_log", []):
+            R.note("normalisation: " + line)
     ctx = Ctx(P, F, R, tier)
     for rule in spec["rules"]:
         R.rules_run.append(rule.__name__)
@@ -87,6 +90,9 @@ def main() -> int:
     c.add_argument("--no-evidence", action="store_true")
     f = sub.add_parser("facts")
     f.add_argument("--write", action="store_true")
+    iv = sub.add_parser("inventory")
+    iv.add_argument("--write", action="store_true")
+    iv.add_argument("--repo", default="/repo")
     s = sub.add_parser("selftest")
     s.add_argument("prop", nargs="?")
     s.add_argument("--repo", default="/repo")
@@ -101,6 +107,28 @@ def main() -> int:
         else:
             facts_mod.load("thorough")
             print("snapshot agrees with artefacts", facts_mod.digest())
+        return 0
+    if a.cmd == "inventory":
+        import ast as _ast
+        import json as _json
+        from . import normalize as _nz
+        from .model import PKG as _PKG
+        inv = {}
+        pkgdir = os.path.join(a.repo, _PKG)
+        for fn in sorted(os.listdir(pkgdir)):
+            if fn.endswith(".py"):
+                with open(os.path.join(pkgdir, fn), encoding="utf-8") as fh:
+                    inv[fn[:-3]] = _nz.qualnames(_ast.parse(fh.read()))
+        if a.write:
+            with open(_nz.INVENTORY_PATH, "w") as fh:
+                _json.dump(inv, fh, indent=0, sort_keys=True)
+                fh.write("\n")
+            print("inventory written:", sum(len(v) for v in inv.values()), "definitions in", len(inv), "modules")
+            return 0
+        old = _nz.load_inventory()
+        new = {m: sorted(set(v) - set(old.get(m, []))) for m, v in inv.items()}
+        new = {m: v for m, v in new.items() if v}
+        print("definitions not in the reference inventory (these are inlined where possible):", new or "none")
         return 0
     if a.cmd == "selftest":
         from .selftest import run_selftest, print_selftest
